@@ -1,4 +1,5 @@
 import TaskctlVerif.Proofs.Sched
+import TaskctlVerif.Model.Nested
 /-!
 # C01 — a stage never starts before all of its dependencies have finished
 
@@ -72,11 +73,129 @@ theorem C01_at_start (c : Cfg) (as : List Act) (s d : Nat) (hd : d ∈ c.deps s)
     · exact absurd h0 h1
   · exact absurd h0 h1
 
+/-! ## Nested pipelines (`Model/Nested.lean`) -/
+
+/-- every step of the product is a step (or no step) of each component -/
+theorem nstep_outer (co ci : Cfg) (S ni : Nat) (σ : NSt) (a : NAct) :
+    (nstep co ci S ni σ a).o = σ.o ∨ ∃ oa, (nstep co ci S ni σ a).o = step co σ.o oa := by
+  cases a with
+  | outer oa =>
+    cases oa with
+    | ret s ok =>
+      simp only [nstep]
+      split
+      · split
+        · exact .inr ⟨.ret S (!σ.i.gerr), rfl⟩
+        · exact .inl rfl
+      · exact .inr ⟨.ret s ok, rfl⟩
+    | visit s => exact .inr ⟨.visit s, rfl⟩
+    | read => exact .inr ⟨.read, rfl⟩
+    | decide => exact .inr ⟨.decide, rfl⟩
+    | post s => exact .inr ⟨.post s, rfl⟩
+    | cancel => exact .inr ⟨.cancel, rfl⟩
+  | inner ib =>
+    simp only [nstep]
+    split <;> exact .inl rfl
+
+theorem nstep_inner (co ci : Cfg) (S ni : Nat) (σ : NSt) (a : NAct) :
+    (nstep co ci S ni σ a).i = σ.i ∨
+      (σ.o.g S = .inRun ∧ ∃ ib, (nstep co ci S ni σ a).i = step ci σ.i ib) := by
+  cases a with
+  | outer oa =>
+    left
+    cases oa with
+    | ret s ok => simp only [nstep]; split <;> (try split) <;> rfl
+    | visit s => rfl
+    | read => rfl
+    | decide => rfl
+    | post s => rfl
+    | cancel => rfl
+  | inner ib =>
+    simp only [nstep]
+    split
+    · rename_i hg; exact .inr ⟨hg, ib, rfl⟩
+    · exact .inl rfl
+
+/-- product invariant: both components satisfy the scheduler invariant, and the inner run has not
+begun unless the outer nested stage has been started -/
+structure NInv (co ci : Cfg) (S : Nat) (σ : NSt) : Prop where
+  o : Inv co σ.o
+  i : Inv ci σ.i
+  gate : σ.i = init ∨ σ.o.g S ≠ .none
+
+theorem ninv_step (co ci : Cfg) (S ni : Nat) (σ : NSt) (a : NAct) (h : NInv co ci S σ) :
+    NInv co ci S (nstep co ci S ni σ a) := by
+  have ho := nstep_outer co ci S ni σ a
+  have hi := nstep_inner co ci S ni σ a
+  have hog : (nstep co ci S ni σ a).o.g S ≠ .none ∨ σ.o.g S = .none := by
+    by_cases hg : σ.o.g S = .none
+    · exact .inr hg
+    · left
+      rcases ho with ho | ⟨oa, ho⟩ <;> rw [ho]
+      · exact hg
+      · exact started_stable co σ.o oa S hg
+  refine ⟨?_, ?_, ?_⟩
+  · rcases ho with ho | ⟨oa, ho⟩ <;> rw [ho]
+    · exact h.o
+    · exact inv_step co σ.o oa h.o
+  · rcases hi with hi | ⟨_, ib, hi⟩ <;> rw [hi]
+    · exact h.i
+    · exact inv_step ci σ.i ib h.i
+  · rcases hi with hi | ⟨hg, _, _⟩
+    · rcases h.gate with hgate | hgate
+      · exact .inl (by rw [hi]; exact hgate)
+      · rcases hog with h1 | h1
+        · exact .inr h1
+        · exact absurd h1 hgate
+    · rcases hog with h1 | h1
+      · exact .inr h1
+      · rw [h1] at hg; cases hg
+
+theorem ninv_run (co ci : Cfg) (S ni : Nat) (as : List NAct) :
+    NInv co ci S (nrun co ci S ni ninit as) := by
+  suffices ∀ σ, NInv co ci S σ → NInv co ci S (nrun co ci S ni σ as) from
+    this _ ⟨inv_init co, inv_init ci, .inl rfl⟩
+  induction as with
+  | nil => intro σ h; exact h
+  | cons a as ih => intro σ h; exact ih _ (ninv_step co ci S ni σ a h)
+
+/-- **C01 inside nested pipelines**: in every reachable state of an outer pipeline whose stage `S`
+runs an inner pipeline, under every interleaving of the two schedulers and all their goroutines:
+an inner stage `x` whose task has been started has (1) every one of its own dependencies
+satisfied in the inner run, and (2) every dependency of the enclosing stage `S` satisfied in the
+outer run — so a task inside a nested pipeline starts only after the dependencies declared at
+every enclosing level have finished. -/
+theorem C01_nested (co ci : Cfg) (S ni : Nat) (as : List NAct) (x : Nat)
+    (hx : (nrun co ci S ni ninit as).i.g x ≠ .none) :
+    (∀ d ∈ ci.deps x, Sat ci (nrun co ci S ni ninit as).i d) ∧
+    (∀ d ∈ co.deps S, Sat co (nrun co ci S ni ninit as).o d) := by
+  have h := ninv_run co ci S ni as
+  refine ⟨fun d hd => h.i.started x hx d hd, fun d hd => ?_⟩
+  rcases h.gate with hg | hg
+  · rw [hg] at hx; exact absurd rfl hx
+  · exact h.o.started S hg d hd
+
+/-- the outer nested stage is still inside `Run` for as long as the inner run is not over: the
+inner run lies inside the outer stage's window -/
+theorem C01_nested_window (co ci : Cfg) (S ni : Nat) (σ : NSt) (ok : Bool)
+    (h : innerOver ni σ.i = false) : nstep co ci S ni σ (.outer (.ret S ok)) = σ := by
+  simp [nstep, h]
+
 /-! ## Non-vacuity: a concrete run in which stage 1 (depending on 0) does start -/
 def exCfg : Cfg := { deps := fun s => if s = 1 then [0] else [], allow := fun _ => false, cond := fun _ => .none }
 def exRun : List Act := [.visit 0, .decide, .ret 0 true, .visit 1, .read, .decide]
 example : (run exCfg init exRun).g 1 = .inRun ∧ (run exCfg init exRun).status 0 = .done := by decide
 /-- and before 0 has finished, the same visit does not start 1 -/
 example : (run exCfg init [.visit 0, .decide, .visit 1, .read, .decide]).g 1 = .none := by decide
+
+-- nested: outer stage 1 (depending on 0) runs an inner pipeline; its inner stage 0 does start, and
+-- inner actions attempted before the outer stage was started change nothing
+def exNested : List NAct :=
+  [.inner (.visit 0), .inner .decide,
+   .outer (.visit 0), .outer .decide, .outer (.ret 0 true), .outer (.visit 1), .outer .read, .outer .decide,
+   .inner (.visit 0), .inner .decide]
+example : (nrun exCfg exCfg 1 2 ninit exNested).i.g 0 ≠ .none ∧
+    (nrun exCfg exCfg 1 2 ninit (exNested.take 2)).i.g 0 = .none ∧
+    (nrun exCfg exCfg 1 2 ninit exNested).o.g 1 = .inRun := by decide
 
 end Sched
